@@ -170,4 +170,189 @@ LegalConfig(c) ==
 \* configuration class in which the unchanged implementation is known to be inconsistent
 \* (known finding C01-truncseg): compressed data whose last segment is truncated to one ring difference
 TruncSingleRD(c) == \E s \in Segs(c) : s # 0 /\ Compressed(c, s) /\ SegMinRD(c, s) = SegMaxRD(c, s)
+
+(***************************************************************************)
+(* Second round (C01): more of the behaviour behind the property.          *)
+(* Nothing above this line is changed; everything below is an addition.    *)
+(***************************************************************************)
+
+(* ------------- asymmetric segment ranges (reduce_segment_range) --------- *)
+\* ProjDataInfo::reduce_segment_range(min, max): "the new range has to be 'smaller' than the old one";
+\* nothing asks for a symmetric range.
+LegalConfigA(c) ==
+  /\ LegalConfig([c EXCEPT !.minSeg = 0, !.maxSeg = 0])
+  /\ c.minSeg <= c.maxSeg /\ c.minSeg >= -FullMaxSeg(c) /\ c.maxSeg <= FullMaxSeg(c)
+
+(* ------------------------------ sizes ----------------------------------- *)
+\* ProjDataInfo.h: get_num_non_tof_sinograms "is the sum of the number of axial poss over all segments",
+\* get_num_sinograms "will count TOF sinograms as well", size_all "the total size of the data"
+NumTangOf(c) == c.maxTang - c.minTang + 1
+NumViewsOf(c) == NV(c) \div c.mash
+RECURSIVE SumAx(_, _, _)
+\* (binary splitting: the recursion depth stays logarithmic in the number of segments)
+SumAx(c, lo, hi) == IF lo > hi THEN 0
+                    ELSE IF lo = hi THEN NumAx(c, lo)
+                    ELSE LET mid == (lo + hi) \div 2 IN SumAx(c, lo, mid) + SumAx(c, mid + 1, hi)
+NumNonTofSinos(c) == SumAx(c, c.minSeg, c.maxSeg)
+NumSinos(c) == NumNonTofSinos(c) * NumTof(c)
+SizeAll(c) == NumSinos(c) * (NumViewsOf(c) * NumTangOf(c))      \* small configurations only (32-bit)
+\* products beyond 2^31: 15-bit limbs, least significant first (both factors < 2^30)
+LimbBase == 32768
+WideMul(a, b) ==
+  LET a0 == a % LimbBase  a1 == a \div LimbBase  b0 == b % LimbBase  b1 == b \div LimbBase
+      p0 == a0 * b0  p1 == a1 * b0 + a0 * b1  p2 == a1 * b1
+      t1 == p1 + (p0 \div LimbBase)  t2 == p2 + (t1 \div LimbBase)
+  IN << p0 % LimbBase, t1 % LimbBase, t2 % LimbBase, t2 \div LimbBase >>
+SizeAllWide(c) == WideMul(NumSinos(c), NumViewsOf(c) * NumTangOf(c))
+WideOfSmall(x) == << x % LimbBase, (x \div LimbBase) % LimbBase, x \div (LimbBase * LimbBase), 0 >>
+\* T8: the sizes count the bins
+T8(c) == /\ SizeAll(c) = Cardinality(AllBins(c))
+         /\ SizeAllWide(c) = WideOfSmall(SizeAll(c))
+         /\ NumSinos(c) = Cardinality({ << b.seg, b.ax, b.tof >> : b \in AllBins(c) })
+         /\ NumNonTofSinos(c) = Cardinality({ << b.seg, b.ax >> : b \in AllBins(c) })
+
+(* --------------------- view subsets (ProjDataInfoSubsetByView) ---------- *)
+\* vs: the sequence of original view numbers of the subset ("views are the views to subset over");
+\* subset view i (0-based) is original view vs[i+1].
+SeqRange(vs) == { vs[i] : i \in 1..Len(vs) }
+LegalViews(c, vs) == /\ Len(vs) >= 1
+                     /\ \A i \in 1..Len(vs) : vs[i] \in Views(c)
+                     /\ \A i, j \in 1..Len(vs) : i # j => vs[i] # vs[j]
+\* "Get the Bin of the original ProjDataInfo corresponding to a Bin for this subset"
+SubOrgBin(vs, b) == [b EXCEPT !.view = vs[b.view + 1]]
+\* "Get the Bin for this subset corresponding to a Bin of the original ProjDataInfo"
+SubFromOrg(vs, ob) == [ob EXCEPT !.view = (CHOOSE i \in 1..Len(vs) : vs[i] = ob.view) - 1]
+SubBins(c, vs) == { b \in [seg : Segs(c), ax : 0..(2 * c.R), view : 0..(Len(vs) - 1), tang : c.minTang..c.maxTang, tof : TofBins(c)] :
+                      b.ax < NumAx(c, b.seg) }
+SubSizeAll(c, vs) == NumSinos(c) * (Len(vs) * NumTangOf(c))
+SubSizeAllWide(c, vs) == WideMul(NumSinos(c), Len(vs) * NumTangOf(c))
+\* T9: the bins of the subset are, one to one, the bins of the full data whose view is in the subset; the two maps
+\* are mutual inverses; the detector pairs of the full data whose bin has a view of the subset are partitioned
+\* over the bins of the subset with the counts of the full data
+T9(c, vs, binT) ==
+  LET inSub == { p \in AllPairs(c) : binT[p] # NoBin /\ InTangRange(c, binT[p]) /\ binT[p].view \in SeqRange(vs) } IN
+  /\ { SubOrgBin(vs, b) : b \in SubBins(c, vs) } = { b \in AllBins(c) : b.view \in SeqRange(vs) }
+  /\ \A b \in SubBins(c, vs) : SubFromOrg(vs, SubOrgBin(vs, b)) = b
+  /\ \A ob \in AllBins(c) : ob.view \in SeqRange(vs) => SubOrgBin(vs, SubFromOrg(vs, ob)) = ob /\ SubFromOrg(vs, ob) \in SubBins(c, vs)
+  /\ Cardinality(SubBins(c, vs)) = SubSizeAll(c, vs)
+  /\ \A b \in SubBins(c, vs) :
+       Cardinality({ p \in inSub : SubFromOrg(vs, binT[p]) = b }) = 2 * NumPairs(c, SubOrgBin(vs, b), FALSE)
+
+(* ------------- equality and the partial order of configurations --------- *)
+\* ProjDataInfo::operator== "check equality"; operator>= "Check if *this contains proj": "true only if the types
+\* are the same, they are equal, or the range for the TOF, segments, axial and tangential positions is at least
+\* as large.  Currently view and TOF ranges have to be identical."
+\* (a configuration record describes the data of ONE scanner; the scanner and the class are compared by the caller)
+SameSampling(a, b) == a.N = b.N /\ a.R = b.R /\ a.maxT = b.maxT /\ a.mash = b.mash /\ a.tofMash = b.tofMash
+SegTableEq(a, b, s) == SegMinRD(a, s) = SegMinRD(b, s) /\ SegMaxRD(a, s) = SegMaxRD(b, s)
+CfgEq(a, b) == /\ SameSampling(a, b)
+               /\ a.minSeg = b.minSeg /\ a.maxSeg = b.maxSeg /\ a.minTang = b.minTang /\ a.maxTang = b.maxTang
+               /\ \A s \in Segs(a) : SegTableEq(a, b, s) /\ NumAx(a, s) = NumAx(b, s)
+CfgGE(a, b) == /\ SameSampling(a, b)
+               /\ b.minSeg >= a.minSeg /\ b.maxSeg <= a.maxSeg /\ b.minTang >= a.minTang /\ b.maxTang <= a.maxTang
+               /\ \A s \in Segs(b) : SegTableEq(a, b, s) /\ NumAx(b, s) <= NumAx(a, s)
+\* the pairs (both orientations) assigned to bin b of configuration c
+PairSetOf(c, binT, b) == { p \in AllPairs(c) : binT[p] = b }
+\* T10: a >= b iff every bin of b is a bin of a with the same detector pairs (same scanner and view/TOF sampling)
+T10(a, binTa, b, binTb) ==
+  SameSampling(a, b) =>
+    (CfgGE(a, b) <=> /\ AllBins(b) \subseteq AllBins(a)
+                     /\ \A x \in AllBins(b) : PairSetOf(a, binTa, x) = PairSetOf(b, binTb, x))
+\* T11: equality is mutual containment; >= is reflexive (antisymmetry is T11 itself, transitivity T12)
+T11(a, b) == /\ CfgGE(a, a)
+             /\ (CfgEq(a, b) <=> (CfgGE(a, b) /\ CfgGE(b, a)))
+T12(a, b, d) == (CfgGE(a, b) /\ CfgGE(b, d)) => CfgGE(a, d)
+\* subsets: "check all of smaller_proj_data_info org_views are in this subset"
+SubGE(a, va, b, vb) == CfgGE(a, b) /\ SeqRange(vb) \subseteq SeqRange(va)
+SubEq(a, va, b, vb) == CfgEq(a, b) /\ va = vb
+
+(* ------- changing one object in place (set_... members of the classes) --- *)
+\* set_num_views (the view mashing factor is "num_detectors_per_ring / 2 / num_views"), set_min/max_tangential_pos_num,
+\* set_tof_mash_factor, reduce_segment_range, set_min/max_ring_difference of the two outermost segments (= another
+\* maximum ring difference).  what: name of the change, x, y: its arguments.
+ApplySet(c, what, x, y) ==
+  CASE what = "views" -> [c EXCEPT !.mash = NV(c) \div x]
+    [] what = "tang" -> [c EXCEPT !.minTang = x, !.maxTang = y]
+    [] what = "tofmash" -> [c EXCEPT !.tofMash = IF c.maxT > 0 /\ x > 0 THEN x ELSE 0]
+    [] what = "segrange" -> [c EXCEPT !.minSeg = x, !.maxSeg = y]
+    [] what = "maxdelta" -> [c EXCEPT !.maxDelta = x]
+    [] OTHER -> c
+\* arguments for which the classes document the change as legal
+SetArgsOk(c, what, x, y) ==
+  CASE what = "views" -> x >= 1 /\ NV(c) % x = 0
+    [] what = "tang" -> x <= y /\ x >= -(NV(c)) + 1 /\ y <= NV(c) - 1
+    [] what = "tofmash" -> x <= 0 \/ c.maxT = 0 \/ (x <= c.maxT /\ (c.maxT \div x) % 2 = 1)
+    [] what = "segrange" -> x <= y /\ x >= c.minSeg /\ y <= c.maxSeg
+    \* only the outermost segments change and they keep their first ring difference
+    [] what = "maxdelta" -> /\ c.maxSeg = FullMaxSeg(c) /\ c.minSeg = -c.maxSeg /\ c.maxSeg >= 1 /\ x <= c.R - 1
+                            /\ x >= PosMinRD(c, c.maxSeg) /\ x <= PosMaxRDu(c, c.maxSeg)
+    [] OTHER -> FALSE
+\* T13: legal changes lead from legal configurations to legal configurations, with the same Michelogram for the
+\* segments that are kept
+T13(c, what, x, y) ==
+  (LegalConfigA(c) /\ SetArgsOk(c, what, x, y)) =>
+     LET d == ApplySet(c, what, x, y) IN
+     /\ LegalConfigA(d)
+     /\ what \in {"views", "tang", "tofmash", "segrange"} => \A s \in Segs(d) : SegTableEq(c, d, s) /\ NumAx(c, s) = NumAx(d, s)
+     /\ what = "maxdelta" => /\ d.minSeg = c.minSeg /\ d.maxSeg = c.maxSeg
+                             /\ \A s \in Segs(d) : Abs(s) # c.maxSeg => SegTableEq(c, d, s)
+                             /\ \A s \in Segs(d) : NumAx(c, s) = NumAx(d, s)
+     /\ what = "segrange" => CfgGE(c, d)
+     /\ what = "tang" /\ x >= c.minTang /\ y <= c.maxTang => CfgGE(c, d)
+
+(* ------ DetectionPosition, DetectionPositionPair, Bin: comparisons ------- *)
+\* DetectionPosition<> as << tangential, axial, radial >>: "comparison operators"; operator< orders by
+\* tangential, then axial, then radial coordinate
+DPEq(x, y) == x[1] = y[1] /\ x[2] = y[2] /\ x[3] = y[3]
+DPLt(x, y) == x[1] < y[1] \/ (x[1] = y[1] /\ (x[2] < y[2] \/ (x[2] = y[2] /\ x[3] < y[3])))
+\* DetectionPositionPair: "we need to be able to cope with reverse order of detectors.  If so, the TOF bin should
+\* swap as well": q = << pos1, pos2, timing >>
+DPPEq(p, q) == \/ (DPEq(p[1], q[1]) /\ DPEq(p[2], q[2]) /\ p[3] = q[3])
+               \/ (DPEq(p[1], q[2]) /\ DPEq(p[2], q[1]) /\ p[3] = -q[3])
+\* Bin: all coordinates, the time frame and the value; operator< is the one of ViewgramIndices ("comparison
+\* operator, only useful for sorting": view, then segment, then timing position)
+BinRecEq(x, y) == x.seg = y.seg /\ x.ax = y.ax /\ x.view = y.view /\ x.tang = y.tang /\ x.tof = y.tof /\ x.frame = y.frame /\ x.val = y.val
+BinRecLt(x, y) == x.view < y.view \/ (x.view = y.view /\ (x.seg < y.seg \/ (x.seg = y.seg /\ x.tof < y.tof)))
+\* T14: < is a strict total order on detection positions, == its equality; pair equality is an equivalence that
+\* identifies a pair with its exchanged description and nothing else; bins: == refines the sorting order
+T14dp(D) == \A x, y, z \in D :
+               /\ (DPLt(x, y) \/ DPLt(y, x) \/ DPEq(x, y))
+               /\ ~(DPLt(x, y) /\ DPLt(y, x)) /\ ~(DPLt(x, y) /\ DPEq(x, y))
+               /\ (DPLt(x, y) /\ DPLt(y, z)) => DPLt(x, z)
+               /\ (DPEq(x, y) <=> x = y)
+T14dpp(P) == \A p, q, r \in P :
+               /\ DPPEq(p, p)
+               /\ DPPEq(p, q) => DPPEq(q, p)
+               /\ (DPPEq(p, q) /\ DPPEq(q, r)) => DPPEq(p, r)
+               /\ DPPEq(p, << p[2], p[1], -p[3] >>)
+               /\ DPPEq(p, q) <=> (q = p \/ q = << p[2], p[1], -p[3] >>)
+T14bin(B) == \A x, y, z \in B :
+               /\ ~BinRecLt(x, x)
+               /\ (BinRecLt(x, y) /\ BinRecLt(y, z)) => BinRecLt(x, z)
+               /\ BinRecEq(x, y) => (~BinRecLt(x, y) /\ ~BinRecLt(y, x))
+               /\ (BinRecEq(x, y) <=> x = y)
+
+(* ------------------------ Scanner: table-like facts ---------------------- *)
+\* Scanner.h / Scanner.inl: num_transaxial_blocks = num_detectors_per_ring / num_transaxial_crystals_per_block,
+\* num_axial_blocks = (num_rings + virtual axial crystals) / num_axial_crystals_per_block, buckets = blocks /
+\* blocks_per_bucket, crystals_per_bucket = blocks_per_bucket * crystals_per_block; check_consistency:
+\* "inconsistent transaxial block info", "... block/bucket info", "num_detectors_per_ring should be a multiple of
+\* num_transaxial_crystals_per_singles_unit", ... (each only when the information is set, i.e. > 0).
+\* s: record of the scanner's integer parameters as its get_ members report them.
+ScDerivedOk(s) ==
+  /\ (s.tCrysPerBlock > 0 => s.tBlocks = s.N \div s.tCrysPerBlock)
+  /\ (s.aCrysPerBlock > 0 => s.aBlocks = (s.R + s.aVirt) \div s.aCrysPerBlock)
+  /\ (s.tBlocksPerBucket > 0 /\ s.tCrysPerBlock > 0 => s.tBuckets = s.tBlocks \div s.tBlocksPerBucket)
+  /\ (s.aBlocksPerBucket > 0 /\ s.aCrysPerBlock > 0 => s.aBuckets = s.aBlocks \div s.aBlocksPerBucket)
+  /\ s.tCrysPerBucket = s.tBlocksPerBucket * s.tCrysPerBlock
+  /\ s.aCrysPerBucket = s.aBlocksPerBucket * s.aCrysPerBlock
+ScBlocksOk(s) ==
+  /\ (s.tCrysPerBlock > 0 /\ s.tBlocks > 0) => s.tBlocks * s.tCrysPerBlock = s.N
+  /\ (s.tBlocksPerBucket > 0 /\ s.tBuckets > 0) => s.tBuckets * s.tBlocksPerBucket = s.tBlocks
+  /\ (s.aCrysPerBlock > 0 /\ s.aBlocks > 0) => s.aBlocks * s.aCrysPerBlock = s.R + s.aVirt
+  /\ (s.aBlocksPerBucket > 0 /\ s.aBuckets > 0) => s.aBuckets * s.aBlocksPerBucket = s.aBlocks
+ScSinglesOk(s) ==
+  /\ s.tCrysPerSU > 0 => (s.N % s.tCrysPerSU = 0 /\ s.tCrysPerBucket % s.tCrysPerSU = 0)
+  /\ s.aCrysPerSU > 0 => (s.R % s.aCrysPerSU = 0 /\ s.aCrysPerBucket % s.aCrysPerSU = 0)
+ScIntFactsOk(s) == ScBlocksOk(s) /\ ScSinglesOk(s)
 =============================================================================
